@@ -1,12 +1,12 @@
 package main
 
 import (
-	"go/token"
-	"go/ast"
 	"crypto/sha256"
 	"encoding/json"
 	"flag"
 	"fmt"
+	"go/ast"
+	"go/token"
 	"go/types"
 	"os"
 	"path/filepath"
